@@ -184,18 +184,38 @@ class Gen:
         return "\n".join(out)
 
     def history(self, maxlen):
+        """Adaptive items, resolved at run time against the actions seen so far:
+        ev k | started i | finished i (any action started so far: before/after its Stop, early, late,
+        twice) | late_started i / late_finished i (an action that WAS ALREADY SENT A STOP) | again (the
+        previous event once more) | finished_unknown.  Half of the histories end with a sweep over all
+        plain events, which ends owners, parents and enclosing scopes after the action events."""
         r = self.rng
         h = []
-        for _ in range(r.randint(2, maxlen)):
+        n = r.randint(2, maxlen)
+        sweep = r.random() < 0.5
+        body = max(1, n - (NEV if sweep else 0))
+        for _ in range(body):
             q = r.random()
-            if q < 0.5:
+            if q < 0.42:
                 h.append(["ev", r.randrange(NEV)])
-            elif q < 0.62:
+            elif q < 0.52:
                 h.append(["started", r.randrange(4)])
-            elif q < 0.93:
+            elif q < 0.72:
                 h.append(["finished", r.randrange(4)])
+            elif q < 0.84:
+                h.append(["late_started", r.randrange(4)])
+            elif q < 0.89:
+                h.append(["late_finished", r.randrange(4)])
+            elif q < 0.95:
+                h.append(["again", 0])
             else:
                 h.append(["finished_unknown", 0])
+        if sweep:
+            if r.random() < 0.6:
+                h.insert(r.randrange(len(h) + 1), ["late_started", r.randrange(4)])
+            order = list(range(NEV))
+            r.shuffle(order)
+            h += [["ev", k] for k in order]
         return h
 
 
@@ -236,6 +256,17 @@ SEEDS = [
     # C10's restart guard run_to_completion does not return: skipped under the watchdog and counted.
     ("flow main\n  activate f1\n  start f2\n  match Never()\n\nflow f1\n  start UtteranceBotAction(script=\"a\")\n  abort\n\nflow f2\n  activate f1\n  match E0()\n",
      [["ev", 0], ["ev", 1]]),
+    # Started arriving AFTER the Stop of a scope end (status back to STARTED, count 0), then the owner
+    # finishes / is stopped by its parent / an enclosing scope ends: no second Stop
+    ("flow main\n  start f1\n  match Never()\n\nflow f1\n  when UtteranceBotAction(script=\"a\")\n    match E1()\n  or when E0()\n    match E1()\n  match E2()\n",
+     [["ev", 0], ["late_started", 0], ["ev", 1], ["ev", 2]]),
+    ("flow main\n  start f1 as $r1\n  match E3()\n  send $r1.Stop()\n  match Never()\n\nflow f1\n  await UtteranceBotAction(script=\"a\") or TimerBotAction(timer_name=\"t\", duration=1.0)\n  match E2()\n",
+     [["finished", 1], ["late_started", 0], ["again", 0], ["ev", 3]]),
+    ("flow main\n  start f1\n  match Never()\n\nflow f1\n  when f2\n    match E1()\n  or when E3()\n    match E1()\n\nflow f2\n  when GestureBotAction(gesture=\"g\")\n    match E1()\n  or when E0()\n    match E2()\n  match Never()\n",
+     [["ev", 0], ["late_started", 0], ["ev", 3], ["ev", 1]]),
+    # the activated instance finishes in the same event in which its last activator ends
+    ("flow main\n  start f1\n  start f2\n  match Never()\n\nflow f1\n  activate f3\n  match E1()\n\nflow f2\n  activate f3\n  match E0()\n\nflow f3\n  match E0()\n",
+     [["ev", 1], ["ev", 0], ["ev", 0]]),
     # ... or is stopped by its parent
     ("flow main\n  start f1 as $r1\n  match E1()\n  send $r1.Stop()\n  match Never()\n\nflow f1\n  start UtteranceBotAction(script=\"a\") as $a1\n  start f2\n  match E0()\n  send $a1.Stop()\n  match Never()\n\nflow f2\n  await GestureBotAction(gesture=\"g\")\n",
      [["ev", 0], ["ev", 1], ["finished", 0]]),
@@ -610,6 +641,17 @@ class Oracle:
                     V.append(("child-outlives-parent", step,
                               f"instance of `{f.flow_id}` is {f.status.name} although the flow `{p.flow_id}` that started it is {p.status.name}",
                               {"child": uid, "parent": f.parent_uid}))
+        # (3') a running restarted instance (child of an instance of the same flow) needs a reference
+        #      instance that is still activated by a running flow
+        for uid, f in fs.items():
+            if _listening(f) and f.activated > 0 and f.parent_uid and f.parent_uid in fs and fs[f.parent_uid].flow_id == f.flow_id:
+                ref = fs[f.parent_uid]
+                n = sum(p.child_flow_uids.count(f.parent_uid) for p in fs.values() if _running(p))
+                if ref.activated == 0 or n == 0:
+                    V.append(("activated-flow-outlives-last-activator", step,
+                              f"restarted instance of activated flow `{f.flow_id}` is {f.status.name} although no running flow holds an activation "
+                              f"(reference instance: activated={ref.activated}, {n} running activator(s))",
+                              {"instance": uid, "reference_instance": f.parent_uid}))
         # (3) activation
         for uid, f in fs.items():
             if f.activated > 0 and f.parent_uid and f.parent_uid in fs and fs[f.parent_uid].flow_id != f.flow_id:
@@ -659,18 +701,29 @@ def run_one(sm, fl, U, src, history, policy):
     try:
         state = U.start_main(state)
         orc.after_step(state, step)
+        prev_ev = None
         for item in history:
             step += 1
-            if item[0] == "ev" or not orc.started:
-                ev = {"type": f"E{item[1] % NEV}"}
+            stopped = [a for a in orc.started if orc.stops.get(a, 0) > 0 and a not in orc.finished_delivered]
+            if item[0] == "again" and prev_ev is not None:
+                ev = dict(prev_ev)
             elif item[0] == "finished_unknown":
                 ev = {"type": "UtteranceBotActionFinished", "action_uid": "unknown-uid", "is_success": True}
-            else:
+            elif item[0] in ("late_started", "late_finished") and stopped:
+                a = stopped[item[1] % len(stopped)]
+                suffix = "Started" if item[0] == "late_started" else "Finished"
+                ev = {"type": orc.start_name[a] + suffix, "action_uid": a}
+                if suffix == "Finished":
+                    ev["is_success"] = True
+            elif item[0] in ("started", "finished") and orc.started:
                 a = orc.started[item[1] % len(orc.started)]
                 suffix = "Started" if item[0] == "started" else "Finished"
                 ev = {"type": orc.start_name[a] + suffix, "action_uid": a}
                 if suffix == "Finished":
                     ev["is_success"] = True
+            else:
+                ev = {"type": f"E{item[1] % NEV}"}
+            prev_ev = ev
             events_fed.append(ev)
             orc.before_event(ev)
             state = U.step(state, dict(ev))
